@@ -6,7 +6,6 @@ use std::sync::{Arc, Mutex};
 use std::task::{Context, Poll};
 use std::time::Duration;
 
-use a10::AsyncFd;
 
 use crate::exec::*;
 use crate::kernel::{self, During, KCfg};
